@@ -391,6 +391,46 @@ func c11FragSpecs(thorough bool) []*gen.FSpec {
 			})
 		})
 	}
+	// zero-duration samples (legal, e.g. the last sample of a track): every duration tuple over {0,1,2} with at least
+	// one zero, one fragment and a 2+rest split, sync at sample 1 only and at every sample
+	maxZ := 4
+	if thorough {
+		maxZ = 5
+	}
+	for n := 2; n <= maxZ; n++ {
+		enum.Tuples(n, 3, func(t []int) {
+			hasZero := false
+			for _, x := range t {
+				hasZero = hasZero || x == 0
+			}
+			if !hasZero {
+				return
+			}
+			durs := append([]int{}, t...)
+			for _, all := range []bool{false, true} {
+				for _, split := range []bool{false, true} {
+					if split && n < 3 {
+						continue
+					}
+					var ss []gen.FSample
+					for i := 0; i < n; i++ {
+						fl := gen.FlagsNonSync
+						if i == 0 || all {
+							fl = gen.FlagsSync
+						}
+						ss = append(ss, gen.FSample{Dur: uint32(durs[i]), Size: uint32(1 + i%3), Flags: fl})
+					}
+					sp := &gen.FSpec{Tracks: []gen.FTrack{{ID: 1, Timescale: 1000, Media: "video"}}}
+					frags := []gen.FFragment{{Runs: []gen.FRun{{TrackID: 1, Samples: ss}}}}
+					if split {
+						frags = []gen.FFragment{{Runs: []gen.FRun{{TrackID: 1, Samples: ss[:2]}}}, {Runs: []gen.FRun{{TrackID: 1, Samples: ss[2:]}}}}
+					}
+					sp.Segments = []gen.FSegment{{Styp: true, Fragments: frags}}
+					specs = append(specs, sp)
+				}
+			}
+		})
+	}
 	return specs
 }
 
